@@ -161,17 +161,18 @@ def run_implicit(inst, p, mode):
 
 
 def _job(args):
-    seed, idx, p, mode = args
+    seed, idx, p, mode = args[:4]
+    spectrum, prop = (args[4], args[5]) if len(args) > 4 else (0, "C06")
     rng = common.rng_for(seed, "C06", idx)
     for _ in range(30):
         try:
             # KPM outputs are snapped to a 2^-20 grid: keep the true denominators well below it
             inst = make_instance(rng, max_order=2 if mode["solver"] == "kpm" else 3)
-            twin_sess = hermitian.make_session(inst, idx + 1, p, spectrum=0)
+            twin_sess = hermitian.make_session(inst, idx + 1, p, spectrum=spectrum)
             A = dict(d=inst["d"], ords=twin_sess["ords"], out=twin_sess["out"])
             B, T = run_implicit(inst, p, mode)
             rel = dict(kind="basis", T=common.red_matrix(T, p), Ti=common.red_matrix(T.conj().T, p))
-            ses = dict(sid=idx + 1, prop="C06", rel=rel, A=A, B=B)
+            ses = dict(sid=idx + 1, prop=prop, rel=rel, A=A, B=B)
             return ("ok", idx, ses, twin_sess, dict(instance=hermitian.describe(inst), mode=mode))
         except Regenerate:
             continue
